@@ -1152,7 +1152,7 @@ Definition model_obs (marker : bool) (maxz : Z) (prev : list kv) (ptot : Z) (os 
   match cands_of os with
   | CandsOk cs =>
       let r := end_block (mkD prev ptot stored_before marker) (Some cs) (Z.to_nat maxz) [] in
-      Some (mkStep marker marker maxz prev ptot os [] false (fst r) (d_vals (snd r)) (d_total (snd r)) (d_upd (snd r))
+      Some (mkStep marker marker maxz prev ptot os [] false (cmt_code prev (fst r)) (fst r) (d_vals (snd r)) (d_total (snd r)) (d_upd (snd r))
                    (d_marker (snd r)))
   | _ => None
   end.
@@ -1163,7 +1163,8 @@ Lemma model_meets_monitor marker maxz prev ptot os stored_before s :
 Proof.
   intros Hp Hr Ht Hs. unfold model_obs in Hs. destruct (cands_of os) as [cs| |] eqn:Ec; try discriminate.
   pose proof (cands_of_wf os cs Hr Ec) as Hc. inversion Hs; subst s; clear Hs.
-  unfold monitor_step. simpl s_panicked. cbv iota. simpl s_epoch_ended. destruct marker.
+  unfold monitor_step. simpl s_panicked. cbv iota. cbn [s_cmt s_prev s_upd]. rewrite Z.eqb_refl. cbn [negb]. cbv iota.
+  simpl s_epoch_ended. destruct marker.
   - simpl negb. cbv iota. simpl s_prev. simpl s_upd. simpl s_max. simpl s_opers. simpl s_after.
     simpl s_total_after. simpl s_stored_upd. simpl s_marker_after.
     pose proof (end_block_epoch (mkD prev ptot stored_before true) cs (Z.to_nat maxz) [] eq_refl Hp Hc
